@@ -345,6 +345,7 @@ def check(run: Run) -> None:
     run.rule("R17.7", "critical section: compare -> replace is enclosed by an inter-process lock (flock/lockf/O_EXCL lock file)", 2)
     run.rule("R17.8", "a call that returns status=error leaves the filesystem as it was: no error return is reachable after a mutation that is not undone", 2)
     run.assume("hashing helper names end in compute_hash and are the same function used for canonical_hash (checked in C16 R16.7)")
+    run.rule("R17.10", "the private temp file never outlives a failed call: every path from mkstemp to an exit of the install function that does not complete os.replace passes os.unlink(<temp>) (or a test showing the temp path no longer exists)", 2)
     run.rule("R17.9", "writers never share a temp file: the source of every os.replace is the private path returned by tempfile.mkstemp", 2)
     for i in all_installs:
         fi0 = i.fa.fi
@@ -522,6 +523,9 @@ def check(run: Run) -> None:
             run.violation("R17.7", mod, fi.qualname, "inter-process lock around compare -> os.replace", "no inter-process lock encloses the base_hash compare and the replace: two writers holding the same base_hash can both pass the recompare and both succeed",
                           failing_history="writers A and B, same base_hash: A recompare ok, B recompare ok, A replace, B replace -> both status success")
 
+        # ------------------------------------------------------------ R17.10
+        _temp_cleanup(run, inst, cas)
+
         # ------------------------------------------------------------ R17.8
         undone_classes = {fsm.MKDIR}
         for s in fa.effects(undone_classes):
@@ -534,6 +538,70 @@ def check(run: Run) -> None:
                 if errs and conditional_create:
                     run.violation("R17.8", mod, fi.qualname, "<target>.parent.mkdir(parents=True, exist_ok=True)" if norm(s.call).endswith(".parent.mkdir(parents=True, exist_ok=True)") else norm(s.call), "parent directories created by this call are not removed when a later step fails and the call returns status=error",
                                   error_returns=[cfg.nodes[r].lineno for r in errs], failing_input="target in a not-yet-existing directory + mkstemp/write failure (e.g. ENOSPC): status=error but the directory now exists")
+
+
+def _temp_cleanup(run: Run, inst: Install, cas: Cas) -> None:
+    """R17.10: explore (normal and exception edges) from the statement after mkstemp; the state is whether the temp file has
+    been removed. Completing os.replace ends a path (the temp file has become the target). Reaching a return or the function's
+    raising exit with the temp file still there is a violation."""
+    fa, cfg, fi, mod = cas.fa, cas.cfg, cas.fa.fi, cas.fa.fi.module
+    M, R, tmp = cas.M, cas.R, inst.tmp
+    assert M is not None and R is not None and tmp is not None
+
+    def unlinks(a: ast.AST | None) -> bool:
+        if a is None:
+            return False
+        for c in walk_no_nested(a):
+            if isinstance(c, ast.Call):
+                f = ast.unparse(c.func)
+                if f in ("os.unlink", "os.remove") and c.args and is_name(c.args[0], tmp):
+                    return True
+                if isinstance(c.func, ast.Attribute) and c.func.attr == "unlink" and tmp in names_in(c.func.value):
+                    return True
+        return False
+
+    def exists_test(a: ast.AST | None) -> bool:
+        return a is not None and isinstance(a, ast.Call) and ast.unparse(a.func) in ("os.path.exists", "os.path.isfile", "os.path.lexists") and bool(a.args) and is_name(a.args[0], tmp)
+
+    bad: list[list[int]] = []
+    seen: set[tuple[int, bool]] = set()
+    work: list[tuple[int, bool, tuple[int, ...]]] = [(s, False, (M, s)) for s, lab in cfg.succ[M] if lab != "x"]
+    n_exits = 0
+    while work:
+        n, gone, path = work.pop()
+        if (n, gone) in seen:
+            continue
+        seen.add((n, gone))
+        node = cfg.nodes[n]
+        if n in (cfg.exit, cfg.raise_exit) or isinstance(node.ast, ast.Return):
+            n_exits += 1
+            if not gone:
+                bad.append(list(path))
+            continue
+        for s, lab in cfg.succ[n]:
+            g2 = gone
+            if n == R and lab != "x":
+                continue  # replace completed: the temp file is the target now
+            if node.kind == "stmt" and unlinks(node.ast):
+                g2 = True  # (an unlink that itself fails cannot be helped: counted as done on its exception edge too)
+            if node.kind == "test" and exists_test(node.ast):
+                if lab == "x":
+                    continue  # os.path.exists() reports False instead of raising
+                if lab == "f":
+                    g2 = True
+            work.append((s, g2, path + (s,)))
+    ok = not bad
+    run.instance("R17.10", f"{mod.relpath}:{inst.mkstemp.call.lineno}", f"{fi.qualname}: {n_exits} exit state(s) reachable from mkstemp without completing os.replace; the temp file is removed on all of them", ok=ok)  # type: ignore[union-attr]
+    reported: set[int] = set()
+    for pth in bad:
+        end = pth[-1]
+        if end in reported:
+            continue
+        reported.add(end)
+        endn = cfg.nodes[end]
+        what = norm(endn.ast)[:80] if endn.ast is not None else ("raise" if end == cfg.raise_exit else "fall off the end")
+        run.violation("R17.10", mod, fi.qualname, f"temp file not removed before `{what}`", "a failing exit of the install function is reachable after mkstemp without os.unlink(<temp>): the call reports an error (or raises) and leaves its fully written temp file next to the target - the file system is not as it was",
+                      path=cfg.describe_path(pth[-12:], mod.relpath), line=endn.lineno)
 
 
 def _returns_reachable(cfg: CFG, starts: list[int], stop: set[int], follow_exc: bool = False) -> list[int]:
